@@ -1,0 +1,20 @@
+//go:build verif
+
+package connection
+
+// Machine-checked contracts for the gowp verifier (/verif). Comment-only; compiled only under the
+// build tag "verif"; declares nothing.
+
+// SELECT index: the connection's record keeps its name and protocol and gets the (non-negative, decimal) database index.
+//@ func handleSelect props C20,C12
+//@   requires generic.henv(params) && $srv.connInfo.tcpClients != nil
+//@   ensures {C20} arity: len(params.Command) != 2 ==> result1 != nil
+//@   ensures {C20} badindex: len(params.Command) == 2 && (!atoiok(params.Command[1]) || atoi(params.Command[1]) < 0) ==> result1 != nil
+//@   assert @SetConnectionInfo#0 {C20} selects: arg0 == params.Connection && arg1 == connectionInfo.Name && arg2 == connectionInfo.Protocol && arg3 == atoi(params.Command[1]) && arg3 >= 0
+
+// SWAPDB index1 index2: swaps exactly the two named databases.
+//@ func handleSwapDB props C20,C12
+//@   requires generic.henv(params) && inv($srv, present) && $srv.connInfo.tcpClients != nil
+//@   ensures {C20} arity: len(params.Command) != 3 ==> result1 != nil
+//@   ensures {C20} badindex: len(params.Command) == 3 && (!atoiok(params.Command[1]) || !atoiok(params.Command[2]) || atoi(params.Command[1]) < 0 || atoi(params.Command[2]) < 0) ==> result1 != nil
+//@   assert @SwapDBs#0 {C20} swaps: arg0 == atoi(params.Command[1]) && arg1 == atoi(params.Command[2])
